@@ -103,6 +103,28 @@ def run_case(desc):
     if mode in ("float", "int"):
         scale = float(sum(abs(v) for v in mx.data.values()))
     nontrivial = False
+    z = snap_z = None
+    if desc.get("prelude") and mode in ("float", "int") :
+        # an unrelated array of the same dims was updated IN PLACE earlier in the session; what the later
+        # out-of-place operations return must not depend on that, and must leave that array alone
+        import numpy as np
+
+        z = build.array(U, dict(xd, tag="z"))
+        mz = build.marr(U, dict(xd, tag="z"))
+        how = desc["prelude"]
+        if how == "abs":
+            z.abs(inplace=True)
+            mz = mz.map(abs)
+        elif how == "sign":
+            z.sign(inplace=True)
+            mz = mz.map(_sign)
+        else:
+            z.apply(np.negative, inplace=True)
+            mz = mz.map(lambda v: -v)
+        dz = model.diff(mz, MArr.from_flodym(z), eq_mixed(scale))
+        require(dz is None, "inplace-unary-wrong", f"{how}(inplace=True): {dz}")
+        snap_z = build.snapshot(z)
+        classes.append(f"after-inplace-{how}-on-another-array")
 
     if form == "binary":
         op = desc["op"]
@@ -195,6 +217,44 @@ def run_case(desc):
     eq = model.eq_sym if mode == "sym" else eq_mixed(scale)
     d = model.diff(exp, got, eq)
     require(d is None, bucket, f"{d}; x{xd['letters']} y{desc.get('y', {}).get('letters') if isinstance(desc.get('y'), dict) else desc.get('num')}")
+    if desc.get("again") and mode in ("float", "int") and form in ("binary", "neg", "abs", "abs_method", "sign_method"):
+        # the same operand object is updated in place and the operation repeated: computed from the current values
+        x.values[...] = x.values * 2 + 1
+        mx2 = mx.map(lambda v: v * 2 + 1)
+        try:
+            if form == "binary":
+                res2, exp2 = apply_flodym(desc["op"], x, y), expected(desc["op"], mx2, my)
+            elif form == "neg":
+                res2, exp2 = -x, mx2.map(lambda v: -v)
+            elif form == "sign_method":
+                res2, exp2 = x.sign(), mx2.map(_sign)
+            else:
+                res2, exp2 = x.abs(), mx2.map(abs)
+        except ZeroDivisionError:
+            res2 = None
+        if res2 is not None:
+            sc2 = 2 * scale + len(mx.data) + 1
+            d = model.diff(exp2, MArr.from_flodym(res2), eq_mixed(sc2))
+            require(d is None, "stale-result-after-inplace-update", f"{bucket} repeated after the operand was updated in place: {d}")
+            classes.append("repeated-after-inplace-update")
+        snap_x = build.snapshot(x)
+    if desc.get("followup") and mode in ("float", "int"):
+        # a later operation on yet another array: the earlier result (and the bystander z) keep their values
+        import numpy as np
+
+        w = build.array(U, dict(xd, tag="w"))
+        mw = build.marr(U, dict(xd, tag="w"))
+        fu = desc["followup"]
+        r2, e2 = {"abs": (lambda: w.abs(), lambda: mw.map(abs)), "sign": (lambda: w.sign(), lambda: mw.map(_sign)),
+                  "neg": (lambda: -w, lambda: mw.map(lambda v: -v)), "apply": (lambda: w.apply(np.negative), lambda: mw.map(lambda v: -v))}[fu]
+        r2 = r2()
+        d2 = model.diff(e2(), MArr.from_flodym(r2), eq_mixed(scale + float(sum(abs(v) for v in mw.data.values()))))
+        require(d2 is None, f"unary-{fu}", f"follow-up {fu}: {d2}")
+        d = model.diff(exp, MArr.from_flodym(res), eq)
+        require(d is None, "earlier-result-changed-by-later-operation", f"{bucket} result after a later {fu}() on another array: {d}")
+        classes.append("result-rechecked-after-later-operation")
+    if z is not None:
+        require(build.snapshot(z) == snap_z, "bystander-array-modified", f"array updated in place before ({desc['prelude']}) changed during {bucket}")
     return {"nontrivial": nontrivial, "classes": classes}
 
 
@@ -257,6 +317,11 @@ def arith_cases(draw, mode, max_dims=3, max_len=2, forms=("binary", "binary", "b
     else:
         forms_u = ["neg", "abs", "abs_method"] if mode == "sym" else UNARY
         desc.update(form=draw(st.sampled_from(forms_u)))
+    if mode in ("float", "int"):
+        desc["prelude"] = draw(st.sampled_from([None, None, None, "abs", "sign", "apply"]))
+        desc["followup"] = draw(st.sampled_from([None, None, "abs", "sign", "neg", "apply"]))
+        if desc.get("op") != "**":
+            desc["again"] = draw(st.booleans())
     return desc
 
 
